@@ -286,36 +286,71 @@ Definition model_obs (ct : list (bytes * bytes)) (bt : list (bytes * bool)) (r :
 (** caller kinds: 0 externally owned account (signed Ethereum transaction), 1 deployed contract
     (forwarding proxy), 2 nested call through the execute contract, 3 call data carried in a received
     cross-chain packet, 4 xibc packet module address (keeper CallEVM), 5 aggregate module address
-    (keeper CallEVM), 6 packet contract as caller, 7 endpoint contract as caller *)
+    (keeper CallEVM), 6 packet contract as caller, 7 endpoint contract as caller, 8 packet contract
+    while executing the module's onRecvPacket (nested legitimate path) *)
 Record cobs := {
   co_contract : nat;        (* 0 packet, 1 endpoint, 2 execute *)
   co_method : bytes;
-  co_priv : nat;            (* classification: 1 privileged, 0 unprivileged (open by design), 2 unclassified *)
   co_caller : nat;
   co_effect : bool;         (* the call to the method itself succeeded (tx ok and, on indirect paths, inner call ok) *)
-  co_same : bool            (* fingerprint of the three contracts' storage + balances identical to the
-                               reference (before, or — for the packet path — the run with inert call data) *)
+  co_same : bool            (* the three contracts' storage + balances (and the accounts' balances) identical to the
+                               reference (before; for the packet path: the run with inert call data, on every slot
+                               that run did not itself change) *)
 }.
+
+(** Classification of the non-view methods: 1 privileged — the entry points named by the property
+    (handing over a received packet / an acknowledgement, setting sequences, ack status, chain name,
+    paying out relayer fees, binding tokens, supply limits) plus packet.sendPacket, which only the
+    endpoint contract may call; 0 unprivileged (open to users by design; Execute.execute is an open
+    proxy whose inner call runs with msg.sender = Execute); 3 positive control (a view). *)
+Definition classification : list (nat * bytes * nat) :=
+  [ (0%nat, B "OnAcknowledgePacket", 1%nat); (0%nat, B "onRecvPacket", 1%nat); (0%nat, B "sendPacket", 1%nat);
+    (0%nat, B "sendPacketFeeToRelayer", 1%nat); (0%nat, B "setAckStatus", 1%nat); (0%nat, B "setChainName", 1%nat);
+    (0%nat, B "setSequence", 1%nat); (0%nat, B "addPacketFee", 0%nat);
+    (1%nat, B "bindToken", 1%nat); (1%nat, B "disableTimeBasedSupplyLimit", 1%nat);
+    (1%nat, B "enableTimeBasedSupplyLimit", 1%nat); (1%nat, B "onAcknowledgementPacket", 1%nat);
+    (1%nat, B "onRecvPacket", 1%nat); (1%nat, B "crossChainCall", 0%nat);
+    (2%nat, B "execute", 0%nat);
+    (0%nat, B "chainName", 3%nat) ].
+
+Definition classify (c : nat) (m : bytes) : nat :=
+  match find (fun e => Nat.eqb (fst (fst e)) c && bytes_eqb (snd (fst e)) m) classification with
+  | Some e => snd e
+  | None => 2%nat
+  end.
 
 Definition legit_caller (c : nat) : bool := (4 <=? c)%nat.
 
 (** Kinds: 21 privileged method took effect (or changed state) for a non-module caller,
-    22 a non-view method of the ABI is not classified. *)
+    22 a non-view method of the ABI is not classified, 23 a positive control failed (the call path
+    did not even execute a harmless view, so its rejections prove nothing). *)
 Definition cobs_check (o : cobs) : list nat :=
-  (if Nat.eqb (co_priv o) 2 then [22%nat] else [])
-  ++ (if Nat.eqb (co_priv o) 1 && negb (legit_caller (co_caller o)) && (co_effect o || negb (co_same o))
-      then [21%nat] else []).
+  let k := classify (co_contract o) (co_method o) in
+  (if Nat.eqb k 2 then [22%nat] else [])
+  ++ (if Nat.eqb k 1 && negb (legit_caller (co_caller o)) && (co_effect o || negb (co_same o))
+      then [21%nat] else [])
+  ++ (if Nat.eqb k 3 && negb (co_effect o) then [23%nat] else []).
 
 Definition contract_failures (l : list cobs) : list (nat * nat) :=
   flat_map (fun io => map (fun k => (fst io, k)) (cobs_check (snd io))) (number 0 l).
 
-(** every privileged method must have been accepted from at least one legitimate caller with the
-    same arguments (otherwise a rejection proves nothing about the caller check): the list of
-    privileged methods never accepted. *)
-Definition never_accepted (l : list cobs) : list (nat * bytes) :=
-  let priv := filter (fun o => Nat.eqb (co_priv o) 1) l in
-  let ok := filter (fun o => legit_caller (co_caller o) && co_effect o) priv in
-  let key := fun o => (co_contract o, co_method o) in
-  let mem := fun k l => existsb (fun o => Nat.eqb (fst k) (co_contract o) && bytes_eqb (snd k) (co_method o)) l in
-  fold_right (fun o acc => if mem (key o) ok || existsb (fun k' => Nat.eqb (fst k') (co_contract o) && bytes_eqb (snd k') (co_method o)) acc
-                           then acc else key o :: acc) [] priv.
+Definition same_method (a b : nat * bytes) : bool := Nat.eqb (fst a) (fst b) && bytes_eqb (snd a) (snd b).
+
+(** every privileged method must have been accepted from at least one legitimate caller (otherwise a
+    rejection proves nothing about the caller check), and must have been tried from every
+    non-module caller kind 0..3: the indices (into [classification]) of privileged methods for which
+    that is not the case. *)
+Definition undemonstrated (l : list cobs) : list nat :=
+  let has := fun (cm : nat * bytes) (p : cobs -> bool) => existsb (fun o => same_method cm (co_contract o, co_method o) && p o) l in
+  flat_map (fun ie =>
+    let e := snd ie in
+    if Nat.eqb (snd e) 1 then
+      if has (fst e) (fun o => legit_caller (co_caller o) && co_effect o)
+         && forallb (fun c => has (fst e) (fun o => Nat.eqb (co_caller o) c)) [0%nat; 1%nat; 2%nat; 3%nat]
+      then [] else [fst ie]
+    else []) (number 0 classification).
+
+(** the classification covers exactly the regenerated ABI inventory *)
+Definition abi_classified (nonview : list (nat * bytes)) : bool :=
+  forallb (fun cm => negb (Nat.eqb (classify (fst cm) (snd cm)) 2)) nonview
+  && forallb (fun e => Nat.eqb (snd e) 3 || existsb (same_method (fst e)) nonview) classification.
